@@ -82,6 +82,11 @@ def construct_expression_tree(
         )
         return AnyNode(id=str(new_function), value=new_function)
 
+    if len(expression_ast) != 3:
+        raise SyntaxError(
+            f"Only binary numerical expressions are supported, received - {expression_ast}"
+        )
+
     node = AnyNode(
         id=expression_ast[0],
         value=expression_ast[0],
